@@ -27,8 +27,10 @@ def gen_members(rng, maxn=8):
             continue
         names.add(name)
         mode = rng.choice([None, 0o100644, 0o100755, 0o100600, 0o104755, 0o100000 | rng.randrange(0, 0o10000), 0o120777])
+        special = rng.random() < 0.25
         members.append({"name": name, "size": rng.choice([0, 1, 9, 10, 11, 100, 1000, 5000]), "mode": mode, "deflate": rng.random() < 0.5,
-                        "date": [rng.choice([1980, 1999, 2020, 2024, 2037]), rng.choice([1, 3, 6, 11, 12]), rng.choice([1, 15, 28, 30]), rng.randrange(0, 24), rng.randrange(0, 60), rng.randrange(0, 30) * 2]})
+                        # stored wall-clock times that do not exist, or exist twice, in some local zone (zip times carry no zone)
+                        "date": rng.choice([[2021, 3, 28, 2, 30, 0], [2021, 10, 31, 2, 30, 0], [2021, 3, 14, 2, 30, 0], [2021, 11, 7, 1, 30, 0], [2020, 2, 29, 23, 59, 58]]) if special else [rng.choice([1980, 1999, 2020, 2024, 2037]), rng.choice([1, 3, 6, 11, 12]), rng.choice([1, 15, 28, 30]), rng.randrange(0, 24), rng.randrange(0, 60), rng.randrange(0, 30) * 2]})
     if rng.random() < 0.4 and "sub/" not in names:
         members.append({"name": "sub/", "mode": rng.choice([0o40755, 0o40700, 0o41777]), "date": [2021, 3, 4, 5, 6, 8]})
     return members
@@ -84,7 +86,7 @@ class Check:
         c = rng.choice(CLOCKS)
         import datetime
         plan["clock"] = [int(datetime.datetime(*c, tzinfo=datetime.timezone.utc).timestamp()) * 10 ** 9, 0]
-        case = {"sub": sub, "world": world, "top": top, "plan": plan, "mode": rng.choice(["bfs", "dfs"]), "arcword": rng.choice(["archives", "arc"]), "tz": rng.choice(["UTC", "Europe/Berlin", "Asia/Kolkata"])}
+        case = {"sub": sub, "world": world, "top": top, "plan": plan, "mode": rng.choice(["bfs", "dfs"]), "arcword": rng.choice(["archives", "arc"]), "tz": rng.choice(["UTC", "Europe/Berlin", "Asia/Kolkata", "America/New_York"])}
         if sub == "list":
             case["variant"] = rng.choice(["plain", "plain", "where", "order", "limit", "where_limit", "order_limit"])
             case["N"] = rng.randint(1, 12)
